@@ -103,6 +103,10 @@ func ParseToken(tokenString string, claims any) ([]byte, error) {
 	if err != nil {
 		return nil, fmt.Errorf("%w: malformed jwt payload: %v", ErrParse, err)
 	}
+	if string(bytes.TrimSpace(payload)) == "null" {
+		// json.Unmarshal would leave a pointer-typed claims value nil and every verifier dereferences it next
+		return nil, fmt.Errorf("%w: jwt payload is null", ErrParse)
+	}
 	err = json.Unmarshal(payload, claims)
 	return payload, err
 }
